@@ -484,6 +484,9 @@ var props = map[string]propInfo{
 	"C01": {level: "exploration",
 		rule: "one case = a sequence of 1-6 messages (edge-biased header fields, all eight types, payload sizes from 0 to exactly the size limit) optionally followed by a header that must be refused (wrong magic/version/type, over-limit size), written with the real Message.Write and read back with the real Message.Read over a scripted stream whose fragmentation (greedy / byte-at-a-time / random) and end (EOF alone or together with the last bytes) are drawn per case. Non-trivial: at least two messages or a read path fragmented into more reads than two per message; distinct = distinct (wire bytes, fragmentation mode, end mode) hashes",
 		assume: []string{"readers and writers obey the io.Reader/io.Writer contracts", "the reference codec (harness) states the documented layout correctly"}},
+	"C11": {level: "fault_enumeration",
+		rule: "runs are grouped in blocks of 640 that share scenario (one call / three concurrent calls with a slow callee / subscribe + two events + call / one call under early-reply schedules), scheduler and network configuration and the decision stream; inside a block the fault is placed at I/O operation k of the client connection for EVERY k in 0..126 x {reset, close by the peer, close by the local side, partial write then error, crash of the peer's node}, plus fault-free runs; planned positions beyond the end of the execution never fire (probe plan-not-reached) and count as trivial. Non-trivial = the fault fired or the run is the block's fault-free run; distinct = distinct (block, fault position, resulting schedule fingerprint)",
+		assume: []string{"sequentially consistent interleavings at statement granularity", "the simulated transport contract (DESIGN.md 3.4, 9.1) incl. TCP-like late writes matches the real transports", "exhaustive over fault positions of each sampled block only"}},
 	"C08": {level: "fault_enumeration",
 		rule: "encodings are sampled (message, dynamic value incl. opaque composite signatures, typed data for generated signatures, meta-object, object reference, service info, capability map, Go values through the reflection codec); an encoding counts only if the full decode succeeds and consumes every byte. For each, EVERY cut position 0<=k<len (sampled only above 4096 bytes, reported by the probe cuts-sampled-not-exhaustive) x {EOF, last bytes together with EOF, ErrUnexpectedEOF, connection reset} x {greedy, random fragmentation} must be refused. evaluations = truncated decodes; distinct_nontrivial = distinct (kind, encoding bytes)",
 		assume: []string{"decoders are deterministic functions of the bytes read so far"}},
